@@ -148,6 +148,10 @@ def optimize_mps(mps: Mps, mpo: Union[Mpo, StackedMpo], omega: float = None) -> 
             # compare the last two sweeps: an energy recorded before the bond dimension was reduced
             # must not certify a later sweep
             v1, v2 = macro_iteration_result[-2:]
+            if mps.optimize_config.nroots > 1:
+                # a local problem smaller than nroots reports fewer roots: compare the common leading ones
+                nc = min(len(v1), len(v2))
+                v1, v2 = v1[:nc], v2[:nc]
             if np.allclose(
                 v1, v2, rtol=mps.optimize_config.e_rtol, atol=mps.optimize_config.e_atol
             ):
